@@ -84,6 +84,7 @@ type logInst struct {
 }
 
 type driver struct {
+	forceEdgeLeaf bool // tamperRandom: pick the forged-edge-leaf class
 	w       *world
 	r       *mrand.Rand
 	keys    []*ecdsa.PrivateKey
